@@ -73,6 +73,7 @@ const (
 	defaultEtcdStorageSize           = "10Gi"
 	defaultEtcdReplicas              = 3
 	defaultSnapshotBucketPrefix      = "kafscale-etcd"
+	maxBucketNameLength              = 63 // S3 bucket names are 3..63 characters
 	defaultSnapshotPrefix            = "etcd-snapshots"
 	defaultSnapshotSchedule          = "0 * * * *"
 	defaultSnapshotImage             = "amazon/aws-cli:2.15.0"
@@ -850,6 +851,9 @@ func sanitizeBucketName(raw string) string {
 	b.Grow(len(raw))
 	lastDash := false
 	for _, r := range raw {
+		if b.Len() >= maxBucketNameLength {
+			break
+		}
 		switch {
 		case r >= 'a' && r <= 'z':
 			b.WriteRune(r)
